@@ -105,23 +105,13 @@ Proof.
     rewrite <- (app_nil_r hs), Hp. reflexivity.
 Qed.
 
-Lemma IsProof_range lo hi n p : IsProof lo hi n p -> 0 <= lo -> (lo < n \/ (lo = 0 /\ n = hi)) -> lo < hi -> lo < n <= hi.
-Proof. intros H. induction H; lia. Qed.
-
 (* the split of the old tree inside a right step *)
 Lemma old_split lo hi n :
-  0 <= lo -> lo + split_point (hi - lo) < n -> n <= hi -> hi <= N ->
+  0 <= lo -> lo + 2 <= hi -> lo + split_point (hi - lo) < n -> n <= hi -> hi <= N ->
   T lo n = node_hash (T lo (lo + split_point (hi - lo))) (T (lo + split_point (hi - lo)) n).
 Proof.
-  intros Hlo Hk Hn Hhi.
-  pose proof (split_point_bounds (hi - lo) ltac:(pose proof (split_point_bounds 2); lia)) as Hb.
-  assert (Hsz : 2 <= hi - lo).
-  { destruct (Z_lt_ge_dec (hi - lo) 2); [|lia]. exfalso.
-    unfold split_point in Hk. destruct (Z.eq_dec (hi - lo) 1) as [E|E].
-    - rewrite E in Hk. cbn in Hk. lia.
-    - assert (hi - lo - 1 <= 0) by lia. pose proof (Z.log2_nonpos (hi - lo - 1) H).
-      rewrite H0 in Hk. cbn in Hk. lia. }
-  specialize (split_point_bounds (hi - lo) Hsz) as Hb'.
+  intros Hlo Hsz Hk Hn Hhi.
+  pose proof (split_point_bounds (hi - lo) ltac:(lia)) as Hb.
   assert (Hu : split_point (n - lo) = split_point (hi - lo)).
   { unfold split_point at 2. apply split_point_unique; [apply Z.log2_nonneg|].
     fold (split_point (hi - lo)). lia. }
@@ -169,7 +159,7 @@ Proof.
   induction rp as [|x rest IH]; intros lo hi n old oh Hlo Hln Hn Hhi; cbn [run_tree_proof_rev];
     destruct (Z.ltb_spec lo n), (Z.leb_spec n hi); try lia; cbn [andb negb].
   - destruct (Z.eqb_spec n hi); [|discriminate]. destruct (Z.eqb_spec lo 0); [|discriminate].
-    intros [= -> Heq]. left. subst. exact Heq.
+    intros [= -> Heq]. left. subst. reflexivity.
   - destruct (Z.eqb_spec n hi) as [->|Hnh].
     + destruct (Z.eqb_spec lo 0); [discriminate|]. destruct rest; [|discriminate].
       intros [= -> Heq]. left. exact Heq.
